@@ -13,24 +13,6 @@ sys.path.insert(0, os.path.join(os.path.dirname(os.path.abspath(__file__)), ".."
 import vlib
 
 
-def harness_results(ck, p):
-    summary = None
-    for line in p.stdout.decode().splitlines():
-        try:
-            r = json.loads(line)
-        except ValueError:
-            continue
-        if r["kind"] == "fail":
-            ck.violation(r["sig"], r["what"], r["case"])
-        elif r["kind"] == "sample":
-            ck.sample(r["case"])
-        elif r["kind"] == "summary":
-            summary = r
-    if p.returncode != 0 or summary is None:
-        raise vlib.InfraError("harness failed rc=%s: %s" % (p.returncode, p.stderr.decode()[-2000:]))
-    return summary
-
-
 def main():
     ck = vlib.Check("C17", "model_checking")
     thorough = ck.tier == "thorough"
@@ -64,7 +46,7 @@ def main():
     binp = vlib.go_build("./c17", "c17")
     walks, walklen = (4000, 40) if thorough else (800, 30)
     p = vlib.run([binp, "edges", epath, str(ck.seed), str(walks), str(walklen)], check=False)
-    s = harness_results(ck, p)
+    s = vlib.harness_results(ck, p)
     if s["edges"] != len(edges):
         raise vlib.InfraError("harness replayed %d of %d edges" % (s["edges"], len(edges)))
     if set(s["branches"]) < {"whole", "insert", "delete", "overwrite", "noop", "nil-range"}:
@@ -88,7 +70,7 @@ def main():
         for h in hists:
             fh.write(json.dumps(h) + "\n")
     p = vlib.run([binp, "hist", hpath], check=False)
-    s2 = harness_results(ck, p)
+    s2 = vlib.harness_results(ck, p)
     if s2["behaviours"] != len(hists):
         raise vlib.InfraError("harness replayed %d of %d behaviours" % (s2["behaviours"], len(hists)))
     ck.set("simulated_behaviours", s2["behaviours"])
